@@ -227,8 +227,83 @@ def _strip_cast(e: ast.AST) -> ast.AST:
     return e
 
 
+def _per_datatype_codec(func: ast.AST, local: str, table: str, factory: str) -> bool:
+    """inside `if self._encoding:` of `func`: `<local> = self.<table>.get(datatype)`, then `if not <local>:` with
+    exactly `<local> = self.<factory>(self._errors)` and `self.<table>[datatype] = <local>` (repair 7b04301: one
+    incremental codec object per data type, created on first use)"""
+    for n in ast.walk(func):
+        if isinstance(n, ast.If) and ast.unparse(n.test) == 'self._encoding':
+            src = [ast.unparse(b) for b in n.body]
+            if not src or src[0] != f'{local} = self.{table}.get(datatype)':
+                continue
+            if len(n.body) < 2 or not isinstance(n.body[1], ast.If) or ast.unparse(n.body[1].test) != f'not {local}' \
+                    or n.body[1].orelse:
+                continue
+            made = sorted(ast.unparse(b) for b in n.body[1].body)
+            return made == sorted([f'{local} = self.{factory}(self._errors)', f'self.{table}[datatype] = {local}'])
+    return False
+
+
+def _loop_over_decoders(func: ast.AST, call: str) -> bool:
+    """`for decoder in self._decoders.values(): <call>` somewhere in func (the loop body is that one statement)"""
+    for n in ast.walk(func):
+        if isinstance(n, ast.For) and ast.unparse(n.target) == 'decoder' and \
+                ast.unparse(n.iter) == 'self._decoders.values()' and not n.orelse and \
+                [ast.unparse(b) for b in n.body] == [call]:
+            return True
+    return False
+
+
+def session_request_items(tree: ast.AST) -> Dict[str, Any]:
+    """`SSHServerChannel._start_session`: is a shell / exec / subsystem request refused once one has succeeded
+    (repair b98700f)?  First statement `if self._session_started:` whose body ends in `return False`; the flag is set
+    from the result right before `return result`; `__init__` clears it; nothing else writes it.  And the shape of
+    `SSHChannel._report_response` that makes the question matter: a successful request of these kinds calls
+    `session_started()` and `resume_reading()`."""
+    srv = T.find_def(tree, 'SSHServerChannel')
+    start = T.find_def(tree, 'SSHServerChannel._start_session')
+    body = [b for b in start.body if not (isinstance(b, ast.Expr) and isinstance(b.value, ast.Constant))]
+    guard = bool(body) and isinstance(body[0], ast.If) and ast.unparse(body[0].test) == 'self._session_started' and \
+        not body[0].orelse and isinstance(body[0].body[-1], ast.Return) and \
+        ast.unparse(body[0].body[-1].value) == 'False'
+    tail = [ast.unparse(b) for b in body[-2:]]
+    sets = tail in (['self._session_started = bool(result)', 'return result'],
+                    ['self._session_started = result', 'return result'])
+    sites = attr_sites(srv, '_session_started')
+    clean = sites in (['__init__: self._session_started = False', '_start_session: self._session_started = bool(result)'],
+                      ['__init__: self._session_started = False', '_start_session: self._session_started = result'])
+    users = sorted(f.name for f in srv.body if isinstance(f, ast.FunctionDef)       # type: ignore
+                   for n in ast.walk(f) if isinstance(n, ast.Call) and ast.unparse(n.func) == 'self._start_session')
+    rep = T.find_def(tree, 'SSHChannel._report_response')
+    resumes = False
+    for n in ast.walk(rep):
+        if isinstance(n, ast.If) and ast.unparse(n.test) == "result and request in {'shell', 'exec', 'subsystem'}":
+            calls = [ast.unparse(b) for b in n.body if isinstance(b, ast.Expr)]
+            resumes = calls == ['self._session.session_started()', 'self.resume_reading()']
+    return {'refused': guard and sets and clean, 'guard': guard, 'sets': sets, 'sites': sites,
+            'start_session_callers': users, 'success_resumes_reading': resumes}
+
+
+def tun_items(tree: ast.AST) -> Dict[str, Any]:
+    """`SSHTunTapChannel._accept_data`: under `if self._mode == SSH_TUN_MODE_POINTTOPOINT:` the stripped address
+    family is subtracted from `_recv_window` (`self._recv_window -= len(data[:4])`, repair 6aa4f78) before
+    `data = data[4:]`; then `super()._accept_data(data, datatype)`"""
+    acc = T.find_def(tree, 'SSHTunTapChannel._accept_data')
+    body = [b for b in acc.body if not (isinstance(b, ast.Expr) and isinstance(b.value, ast.Constant))]
+    strips = counted = False
+    if len(body) == 2 and isinstance(body[0], ast.If) and \
+            ast.unparse(body[0].test) == 'self._mode == SSH_TUN_MODE_POINTTOPOINT' and not body[0].orelse and \
+            ast.unparse(body[1]) == 'super()._accept_data(data, datatype)':
+        src = [ast.unparse(b) for b in body[0].body]
+        strips = bool(src) and src[-1] == 'data = data[4:]'
+        counted = src == ['self._recv_window -= len(data[:4])', 'data = data[4:]']
+    return {'strips': strips, 'counted': counted}
+
+
 def text_codec_items(cls: ast.AST, write: ast.AST, setenc: ast.AST, deliver: ast.AST) -> Dict[str, Any]:
-    """which codec objects the text layer goes through: read from `write`, `set_encoding`, `_deliver_data`"""
+    """which codec objects the text layer goes through: read from `write`, `set_encoding`, `_deliver_data`,
+    `_discard_recv`, `_flush_recv_buf` — one incremental encoder / decoder per channel (before repair 7b04301) or
+    one per data type (since)"""
     def assigned(func: ast.AST, name: str, under: str) -> List[ast.AST]:
         """values assigned to `name` in the body of `if <under>:` (not its else) inside func"""
         res: List[ast.AST] = []
@@ -249,17 +324,40 @@ def text_codec_items(cls: ast.AST, write: ast.AST, setenc: ast.AST, deliver: ast
     uses_encoder = False
     if len(enc_vals) == 1 and isinstance(enc_vals[0], ast.Call):
         c = enc_vals[0]
-        uses_encoder = ast.unparse(c.func) == 'self._encoder.encode' and len(c.args) == 1 and not c.keywords and \
-            ast.unparse(_strip_cast(c.args[0])) == 'data'
+        uses_encoder = ast.unparse(c.func) in ('self._encoder.encode', 'encoder.encode') and len(c.args) == 1 and \
+            not c.keywords and ast.unparse(_strip_cast(c.args[0])) == 'data'
     dec_vals = assigned(deliver, 'decoded_data', 'self._encoding')
     dec_call = ast.unparse(dec_vals[0]) if len(dec_vals) == 1 else '<none>'
     uses_decoder = False
     if len(dec_vals) == 1:
         c = _strip_cast(dec_vals[0])
-        uses_decoder = isinstance(c, ast.Call) and ast.unparse(c.func) == 'self._decoder.decode' and \
-            len(c.args) == 1 and not c.keywords and ast.unparse(c.args[0]) == 'data'
-    e_new = [ast.unparse(v) for v in assigned(setenc, 'self._encoder', 'encoding')]
-    d_new = [ast.unparse(v) for v in assigned(setenc, 'self._decoder', 'encoding')]
+        uses_decoder = isinstance(c, ast.Call) and ast.unparse(c.func) in ('self._decoder.decode', 'decoder.decode') \
+            and len(c.args) == 1 and not c.keywords and ast.unparse(c.args[0]) == 'data'
+    enc_per = uses_encoder and ast.unparse(enc_vals[0].func) == 'encoder.encode' and \
+        _per_datatype_codec(write, 'encoder', '_encoders', '_new_encoder')
+    dec_per = uses_decoder and ast.unparse(_strip_cast(dec_vals[0]).func) == 'decoder.decode' and \
+        _per_datatype_codec(deliver, 'decoder', '_decoders', '_new_decoder')
+    if uses_encoder and ast.unparse(enc_vals[0].func) == 'encoder.encode' and not enc_per:
+        uses_encoder = False        # a local called `encoder` that is not the per-data-type object of the channel
+    if uses_decoder and ast.unparse(_strip_cast(dec_vals[0]).func) == 'decoder.decode' and not dec_per:
+        uses_decoder = False
+    e_new = [ast.unparse(v) for v in assigned(setenc, 'self._new_encoder' if enc_per else 'self._encoder', 'encoding')]
+    d_new = [ast.unparse(v) for v in assigned(setenc, 'self._new_decoder' if dec_per else 'self._decoder', 'encoding')]
+    # the tables start empty whenever the encoding is (re)set
+    tables = sorted(ast.unparse(n.target) + ' = ' + ast.unparse(n.value) for n in ast.walk(setenc)
+                    if isinstance(n, ast.AnnAssign) and n.value is not None and
+                    ast.unparse(n.target) in ('self._encoders', 'self._decoders'))
+    tables_ok = tables == ['self._decoders = {}', 'self._encoders = {}']
+    discard = next(f for f in cls.body if isinstance(f, ast.FunctionDef) and f.name == '_discard_recv')     # type: ignore
+    frecv = next(f for f in cls.body if isinstance(f, ast.FunctionDef) and f.name == '_flush_recv_buf')     # type: ignore
+    if dec_per:
+        discard_resets = _loop_over_decoders(discard, 'decoder.reset()')
+        final_all = _loop_over_decoders(frecv, "decoder.decode(b'', True)")
+    else:
+        discard_resets = any(isinstance(n, ast.Call) and ast.unparse(n) == 'self._decoder.reset()'
+                             for n in ast.walk(discard))
+        final_all = any(isinstance(n, ast.Call) and ast.unparse(n) == "self._decoder.decode(b'', True)"
+                        for n in ast.walk(frecv))
     # `if not data: return` comes before the encoder is reached
     empty_line = None
     for n in ast.walk(write):
@@ -272,11 +370,15 @@ def text_codec_items(cls: ast.AST, write: ast.AST, setenc: ast.AST, deliver: ast
                          if isinstance(f, (ast.FunctionDef, ast.AsyncFunctionDef))
                          for n in ast.walk(f)
                          if isinstance(n, ast.Call) and isinstance(n.func, ast.Attribute) and
-                         n.func.attr in ('encode', 'decode') and
-                         ast.unparse(n.func.value) in ('self._encoder', 'self._decoder'))
+                         n.func.attr in ('encode', 'decode', 'reset') and
+                         ast.unparse(n.func.value) in ('self._encoder', 'self._decoder', 'encoder', 'decoder'))
     return {'enc_call': enc_call, 'dec_call': dec_call, 'uses_encoder': uses_encoder, 'uses_decoder': uses_decoder,
-            'encoder_incremental': e_new == ['codecs.getincrementalencoder(encoding)(errors)'],
-            'decoder_incremental': d_new == ['codecs.getincrementaldecoder(encoding)(errors)'],
+            'encoder_per_datatype': enc_per and tables_ok, 'decoder_per_datatype': dec_per and tables_ok,
+            'discard_resets_decoders': discard_resets, 'final_decode_all_decoders': final_all,
+            'encoder_incremental': e_new == (['codecs.getincrementalencoder(encoding)'] if enc_per else
+                                             ['codecs.getincrementalencoder(encoding)(errors)']),
+            'decoder_incremental': d_new == (['codecs.getincrementaldecoder(encoding)'] if dec_per else
+                                             ['codecs.getincrementaldecoder(encoding)(errors)']),
             'empty_write_skips': empty_line is not None and enc_line is not None and empty_line < enc_line,
             'codec_calls': other_sites}
 
@@ -397,7 +499,34 @@ def generate(prop: str) -> Dict[str, Any]:
     out += f'def encoderIsIncremental : Bool := {T.lean_bool(tc["encoder_incremental"])}\n'
     out += f'def decoderIsIncremental : Bool := {T.lean_bool(tc["decoder_incremental"])}\n'
     out += f'def emptyWriteSkipsEncoder : Bool := {T.lean_bool(tc["empty_write_skips"])}\n'
-    out += 'def codecCallSites : List String := ' + T.lean_list([T.lean_str(x) for x in tc['codec_calls']]) + '\n\n'
+    out += 'def codecCallSites : List String := ' + T.lean_list([T.lean_str(x) for x in tc['codec_calls']]) + '\n'
+    out += '/-- one incremental encoder / decoder PER DATA TYPE: `write` / `_deliver_data` take it from\n'
+    out += '    `self._encoders` / `self._decoders` by `datatype`, create it with `self._new_encoder(self._errors)` /\n'
+    out += '    `self._new_decoder(self._errors)` on first use and store it; `set_encoding` empties both tables -/\n'
+    out += f'def encoderPerDatatype : Bool := {T.lean_bool(tc["encoder_per_datatype"])}\n'
+    out += f'def decoderPerDatatype : Bool := {T.lean_bool(tc["decoder_per_datatype"])}\n'
+    out += '/-- `_discard_recv` resets the decoder(s); `_flush_recv_buf` runs the final `decode(b\'\', True)` on every one -/\n'
+    out += f'def discardResetsDecoders : Bool := {T.lean_bool(tc["discard_resets_decoders"])}\n'
+    out += f'def finalDecodeAllDecoders : Bool := {T.lean_bool(tc["final_decode_all_decoders"])}\n\n'
+    try:
+        sr = session_request_items(tree)
+    except (T.Untranslatable, StopIteration, AttributeError, IndexError) as e:
+        fallbacks.append(f'session request: {e}')
+        sr = {'refused': False, 'success_resumes_reading': True}
+    out += '/-- `SSHServerChannel._start_session` refuses a shell / exec / subsystem request once one has succeeded\n'
+    out += '    (`_session_started`); `_report_response` answers a successful one with `session_started()` and\n'
+    out += '    `resume_reading()` -/\n'
+    out += f'def secondSessionRequestRefused : Bool := {T.lean_bool(sr["refused"])}\n'
+    out += f'def sessionRequestResumesReading : Bool := {T.lean_bool(sr["success_resumes_reading"])}\n\n'
+    try:
+        tun = tun_items(tree)
+    except (T.Untranslatable, StopIteration, AttributeError, IndexError) as e:
+        fallbacks.append(f'tunnel channel: {e}')
+        tun = {'strips': True, 'counted': False}
+    out += '/-- `SSHTunTapChannel._accept_data` strips the 4-byte address family (point-to-point mode) and subtracts the\n'
+    out += '    stripped bytes from `_recv_window` first -/\n'
+    out += f'def tunStripsHeader : Bool := {T.lean_bool(tun["strips"])}\n'
+    out += f'def tunHeaderCounted : Bool := {T.lean_bool(tun["counted"])}\n\n'
     try:
         ho = pktsize_handling(popen, '_process_channel_open')
         hc = pktsize_handling(pconf, '_process_channel_open_confirmation')
@@ -413,7 +542,8 @@ def generate(prop: str) -> Dict[str, Any]:
     out += f'end AsyncsshModel.Gen.{prop}\n'
     changed = vlib.write_if_changed(vlib.module_path(f'AsyncsshModel.Gen.{prop}'), out)
     return {'gen_file': f'Gen/{prop}.lean', 'changed': changed, 'decrement_sites': sites,
-            'zero_pktsize_check': {'open': ho, 'confirm': hc}, 'text_codec': tc, 'fallbacks': fallbacks, '_py': py}
+            'zero_pktsize_check': {'open': ho, 'confirm': hc}, 'text_codec': tc, 'session_request': sr,
+            'tunnel': tun, 'fallbacks': fallbacks, '_py': py}
 
 
 def self_test(prop: str, info: Dict[str, Any], rng: Any) -> List[str]:
